@@ -122,3 +122,14 @@ claim('C03',
       'parser admits it on purpose; regex matching runs on realised bracket contents; the reference reader is mine.',
       'symbolic execution of the source-lifted tokenizer and the real parser with z3 (minisym), differential against an '
       'independent reader', 'DESIGN.md §4 C03')
+claim('C06',
+      'Ring perception is run on 22 (quick) / 34 (thorough) ring-system skeletons with every bond symbolically ordinary or '
+      'coordinate (the solver forks the 2^bonds cases) and under every renumbering of the smaller skeletons (permutation '
+      'realised by the solver): ring count = cyclomatic number without coordinate bonds, every ring a simple cycle of existing '
+      'ordinary bonds, GF(2)-independent, total size and size multiset of a minimum cycle basis (computed by my own greedy '
+      'basis over all simple cycles), atom/bond ring marks, ring sizes and connected components agree; size multiset '
+      'independent of numbering.',
+      'Graph shape is not a solver variable (adjacency lives in dictionaries): the skeleton list is curated and avoids the two '
+      'recorded heuristic gaps; what is symbolic is the coordinate flag of every bond and the numbering.',
+      'symbolic execution with solver-forked bond flags and solver-enumerated permutations (minisym), graph-theoretic oracle',
+      'DESIGN.md §4 C06')
